@@ -38,7 +38,15 @@ def cases(draw, tier="quick"):
     P["dup"] = draw(st.booleans())
     P["reorder"] = draw(st.booleans())
     P["gets"] = draw(st.sampled_from(["early", "tape", "late"]))
+    # either side may also be dilating (w.dilate(no_listen=True) at a tape-chosen moment): its dilate-N control
+    # records travel through the same mailbox, numbered separately from the application phases
+    P["dilate"] = draw(st.sampled_from([[False, False], [False, False], [True, False], [False, True], [True, True]]))
     P["extra_msg_gets"] = draw(st.sampled_from([0, 0, 1, 3]))
+    if draw(st.integers(0, 2)) == 0:
+        # one side reads slowly: its inbound queue builds up, so dup/reorder act on many messages at once
+        slow = draw(st.integers(0, 1))
+        P["w_s2c"] = [1 if slow == 0 else 10, 1 if slow == 1 else 10]
+        P["w_adv"] = draw(st.sampled_from([3, 6]))
     n = draw(st.integers(0, 260))
     P["tape"] = draw(st.binary(min_size=n, max_size=n))
     return P
